@@ -9,6 +9,7 @@ import (
 	"encoding/hex"
 	"fmt"
 	"math/big"
+	"strings"
 
 	admintypes "github.com/Sifchain/sifnode/x/admin/types"
 	clptypes "github.com/Sifchain/sifnode/x/clp/types"
@@ -295,6 +296,39 @@ func (p *Pilot) SetRegistryWithDuplicates() {
 		Permissions: []trtypes.Permission{trtypes.Permission_CLP, trtypes.Permission_IBCEXPORT, trtypes.Permission_IBCIMPORT}}}
 	p.Tx("registry.register.duplicated-denom", adm, up)
 	p.restartNext = true
+}
+
+// SetBlacklist: the ethbridge administrator sets (and later replaces) the blacklist with real Ethereum addresses in
+// several capitalisations AND elements that are not addresses — the message accepts any strings: an empty
+// element, an ENS name, a bech32 address, hex strings of the wrong length.  The export must carry what is stored.
+func (p *Pilot) SetBlacklist() {
+	adm := p.W.Admin
+	hexAddr := func() string {
+		h := fmt.Sprintf("%040x", p.R.BigBits(150))
+		switch p.R.Intn(4) {
+		case 0:
+			return "0x" + strings.ToUpper(h)
+		case 1:
+			return h // no 0x prefix
+		case 2:
+			return "0X" + h
+		default:
+			return "0x" + h
+		}
+	}
+	odd := []string{"", "vitalik.eth", p.user().Addr.String(), "0x" + fmt.Sprintf("%039x", p.R.BigBits(140)), "0x" + fmt.Sprintf("%041x", p.R.BigBits(150)), " 0xabc ", "0xZZ"}
+	var list []string
+	for i := 1 + p.R.Intn(4); i > 0; i-- {
+		list = append(list, hexAddr())
+	}
+	for i := 1 + p.R.Intn(3); i > 0; i-- {
+		list = append(list, odd[p.R.Intn(len(odd))])
+	}
+	if p.R.Chance(1, 2) {
+		list = append(list, "")
+	}
+	m := ethbridgetypes.MsgSetBlacklist{From: adm.Addr.String(), Addresses: list}
+	p.Tx("bridge.setblacklist", adm, &m)
 }
 
 // EditReadFail: [edit X, a message that reads X (succeeds, or is refused after reading), a send of more than the
